@@ -14,7 +14,7 @@ pub struct NameId(pub u32);
 
 impl ArenaId for NameId {
     fn from_usize(x: usize) -> Self {
-        Self(x as u32)
+        Self(x.try_into().expect("name id too big"))
     }
 
     fn to_usize(self) -> usize {
@@ -31,7 +31,7 @@ pub struct StringId(pub u32);
 
 impl ArenaId for StringId {
     fn from_usize(x: usize) -> Self {
-        Self(x as u32)
+        Self(x.try_into().expect("string id too big"))
     }
 
     fn to_usize(self) -> usize {
@@ -48,7 +48,7 @@ pub struct VersionSetId(pub u32);
 
 impl ArenaId for VersionSetId {
     fn from_usize(x: usize) -> Self {
-        Self(x as u32)
+        Self(x.try_into().expect("version set id too big"))
     }
 
     fn to_usize(self) -> usize {
@@ -65,7 +65,7 @@ pub struct VersionSetUnionId(pub u32);
 
 impl ArenaId for VersionSetUnionId {
     fn from_usize(x: usize) -> Self {
-        Self(x as u32)
+        Self(x.try_into().expect("version set union id too big"))
     }
 
     fn to_usize(self) -> usize {
@@ -82,7 +82,7 @@ pub struct SolvableId(pub u32);
 
 impl ArenaId for SolvableId {
     fn from_usize(x: usize) -> Self {
-        Self(x as u32)
+        Self(x.try_into().expect("solvable id too big"))
     }
 
     fn to_usize(self) -> usize {
